@@ -31,7 +31,7 @@ def replay_one(ctx, b):
     path = os.path.join(ctx.work, "replay.ndjson")
     with open(path, "w") as fh:
         fh.write(ndjson([{"calls": o["calls"], "obs": o["obs"]}]))
-    h = ctx.harness([b, "replay", path, "1", "1"], timeout=600)
+    h = ctx.harness([b, "replay", path, "1", "1"] + list(o.get("driver_args") or []), timeout=600, keep=lambda v: False)
     for v in h["violations"]:
         print("REPRODUCED %s: %s" % (v["sig"], v["desc"]))
     if not h["violations"]:
